@@ -44,6 +44,7 @@ func hasOwnMethod(n *types.Named, name string) bool {
 func runC15(c *Ctx, r *Run) {
 	r.Rule("CODEC-5", "marshal and unmarshal are inverse: a wire field written from one field of the object is restored into that field")
 	r.Rule("CODEC-6", "wire structs encode every field unconditionally (no omitempty / skipped keys): decoders fill pre-shaped values")
+	r.Rule("ALIAS-E", "no struct literal stores one freshly created object into two reference fields (pre-shaped values are decoded field by field)")
 	r.Rule("CODEC-2", "hand-written codecs agree: every wire-struct field is written on marshal and read on unmarshal; every field of the restored type is assigned")
 	r.Rule("CODEC-4", "reflectively encoded structs reachable from result types carry no unexported state")
 	r.Rule("ERR-1", "restore-path guard inventory: every recorded decode/validation rejection of the UnmarshalBinary implementations and validators is present and covers the success return")
@@ -403,6 +404,8 @@ func runC15(c *Ctx, r *Run) {
 
 	r.Require("CODEC-2", 40)
 	r.Require("CODEC-5", 15)
+	checkLiteralAliasing(c, r, "ALIAS-E")
+	r.Require("ALIAS-E", 30)
 	r.Require("CODEC-6", 20)
 	r.Require("CODEC-4", 5)
 	r.Require("ERR-1", 25)
@@ -437,4 +440,76 @@ func withCallees(c *Ctx, fn *ssa.Function, depth int, visit func(*ssa.Function))
 		}
 	}
 	rec(fn, depth)
+}
+
+// checkLiteralAliasing: ALIAS-E. In a struct literal two different reference-typed fields (pointer, map, slice,
+// interface holding a pointer) never receive the very same freshly created object: decoders fill pre-shaped values
+// field by field, so a shared object makes one field overwrite the other.
+func checkLiteralAliasing(c *Ctx, r *Run, rule string) {
+	isRef := func(t types.Type) bool {
+		switch t.Underlying().(type) {
+		case *types.Pointer, *types.Map, *types.Slice, *types.Interface:
+			return true
+		}
+		return false
+	}
+	for _, p := range c.LibPkgs() {
+		for _, fn0 := range funcsOfPkg(c, c.SSA[p.Types]) {
+			withAnon(fn0, func(fn *ssa.Function) {
+				n := 0
+				allInstrs(fn, func(in ssa.Instruction) {
+					a, ok := in.(*ssa.Alloc)
+					if !ok {
+						return
+					}
+					nm := namedOf(derefType(a.Type()))
+					if nm == nil || nm.Obj().Pkg() == nil || !strings.HasPrefix(nm.Obj().Pkg().Path(), modPath) {
+						return
+					}
+					if _, isS := nm.Underlying().(*types.Struct); !isS {
+						return
+					}
+					byVal := map[ssa.Value][]string{}
+					refFields := 0
+					for _, ref := range *a.Referrers() {
+						fa, ok := ref.(*ssa.FieldAddr)
+						if !ok || !isRef(derefType(fa.Type())) && !isRef(fa.Type().(*types.Pointer).Elem()) {
+							continue
+						}
+						for _, rr := range *fa.Referrers() {
+							st, ok := rr.(*ssa.Store)
+							if !ok || st.Addr != ssa.Value(fa) {
+								continue
+							}
+							refFields++
+							v := stripConv(st.Val)
+							if mi, ok := v.(*ssa.MakeInterface); ok {
+								v = stripConv(mi.X)
+							}
+							// only freshly created objects: call results and allocations
+							switch v.(type) {
+							case *ssa.Call, *ssa.Alloc, *ssa.MakeMap, *ssa.MakeSlice:
+								byVal[v] = append(byVal[v], fieldName(fa.X.Type(), fa.Field))
+							}
+						}
+					}
+					if refFields < 2 {
+						return
+					}
+					n++
+					shared := ""
+					for v, fs := range byVal {
+						if len(fs) > 1 {
+							sort.Strings(fs)
+							shared = strings.Join(fs, " and ") + " both hold " + path(v)
+						}
+					}
+					r.Analysed(c.FuncName(fn))
+					r.Check(rule, fmt.Sprintf("%s|%s literal #%d", c.FuncName(fn), nm.Obj().Name(), n), c.Pos(a.Pos()), shared == "",
+						"distinct reference fields of the "+nm.Obj().Name()+" literal hold distinct objects",
+						"fields "+shared+": the two fields are one object, so decoding (or any in-place update of) one of them silently changes the other")
+				})
+			})
+		}
+	}
 }
